@@ -245,10 +245,14 @@ structure Variant where
   sharedSeed : Bool
   /-- `PAMPredictiveModel.sample` chooses the models with `np.random.choice` -/
   globalChoice : Bool
+  /-- `PriorPredictiveModel.sample` with a `Generator`: `none` — as it is, `np.random.seed(Generator)`
+      raises; `some s'` — repaired: `seed = int(seed.integers(0, 1e6))`, and `s'` is the value that
+      call returned (every outcome of the draw is covered, like the allocation of PAM) -/
+  priorGen : Option Int := Option.none
   deriving DecidableEq, Repr
 
-def asIs : Variant := ⟨true, true⟩
-def intended : Variant := ⟨false, false⟩
+def asIs : Variant := ⟨true, true, Option.none⟩
+def intended : Variant := ⟨false, false, Option.none⟩
 
 /-- `PredictiveModel.sample` (array form, shape `(n_outputs, n_times, n_samples)`) -/
 def predSample (v : Variant) (kinds : List EM) (nT nS : Nat) : Sampler :=
@@ -327,10 +331,16 @@ def priorLoop (v : Variant) (spec : PredSpec) (nT n : Nat) (base : Option Int) :
     (Out.append ⟨keepFirst k [row] r.1.1.cells, cw.1 :: r.1.1.calls, [], false⟩ rest.1, rest.2)
 
 /-- `PriorPredictiveModel.sample`: `np.random.seed(seed)` if a seed is given; a `Generator` is
-    documented as accepted but `np.random.seed(Generator)` raises `TypeError` -/
+    documented as accepted but `np.random.seed(Generator)` raises `TypeError` (as it is); repaired, one
+    integer is drawn from the `Generator` (which is thereby advanced by one call) and used as the seed -/
 def priorPredSample (v : Variant) (spec : PredSpec) (nT n : Nat) : Sampler := fun sd w =>
   match sd with
-  | .gen g => ((⟨[], [], [], true⟩, .gen g), w)
+  | .gen g =>
+    match v.priorGen with
+    | Option.none => ((⟨[], [], [], true⟩, .gen g), w)
+    | some s =>
+      let r := priorLoop v spec nT n (some s) (List.range n) { w with glob := ⟨.legacySeeded s, 0⟩ }
+      (({ r.1 with calls := ⟨g.stream, g.ctr, .seedInt, 1⟩ :: r.1.calls }, .gen ⟨g.stream, g.ctr + 1⟩), r.2)
   | .int s =>
     let r := priorLoop v spec nT n (some s) (List.range n) { w with glob := ⟨.legacySeeded s, 0⟩ }
     ((r.1, .int s), r.2)
